@@ -12,11 +12,16 @@ def _try(fn, data):
 
 
 def annotate(events):
-    for ev in events:
-        if ev.get('e') == 'wire' and 'frames' in ev:
+    for ev0 in events:
+        targets = []
+        if ev0.get('e') == 'wire' and 'frames' in ev0:
+            targets.append(ev0)
+        if ev0.get('e') == 'bodies':
+            targets += [ev0['req'], ev0['resp']]
+        for ev in targets:
             b = bytes(ev['bytes'])
             for h in ev['frames']:
-                if h.get('flag') == 1:
+                if h.get('flag') == 1 and h.get('len', 0) > 0:
                     payload = b[h['off'] + 5: h['off'] + 5 + h['len']]
                     h['gzip'] = _try(lambda d: zlib.decompress(d, 16 + zlib.MAX_WBITS), payload)
                     h['deflate'] = _try(lambda d: zlib.decompress(d, zlib.MAX_WBITS), payload)
